@@ -1069,9 +1069,11 @@ pub fn srv_conn(rec: &mut Rec, rng: &mut Rng, thorough: bool) {
     for _ in 0..n {
         rec.case("server-limit-400-continue");
         rec.nontrivial();
-        let l1 = *rng.pick(&[0usize, 5, 100, 51200]);
+        // every fourth server keeps the default limit (set_payload_max_size never called): 0.05 MiB = 51200
+        let default_limit = rng.chance(1, 4);
+        let l1 = if default_limit { 51200 } else { *rng.pick(&[0usize, 5, 100, 51200]) };
         let mut cfg = Cfg::base("C04");
-        cfg.limit = Some(l1);
+        cfg.limit = if default_limit { None } else { Some(l1) };
         let mut sim = Sim::new(rec, cfg);
         let a = sim.connect(rec);
         sim.poll(rec);
